@@ -110,6 +110,10 @@ class TridonicGW:
                 self.pending.append(report(0x12, 0x77, bytes([0, 0, 0, 3]), seq))
             else:
                 self.pending.append(report(0x12, 0x71, b"\0\0\0\0", seq))
+            if getattr(self.w, "dup", False):
+                # documented firmware bug: a foreign frame equal to the last transmitted one is
+                # reported as if the interface had sent it (same sequence number)
+                self.pending.append(report(0x12, rtype, data[4:8], seq))
         elif cmd == 0x40:
             self.wire.append(("power", data[1], False, 0))
 
